@@ -49,6 +49,10 @@ Parts:
   redef   the same symbols registered in three successive scopes with two different definitions (plain, prefixed,
           Quantity-defined, with conversion class; every style / exit): inside each scope every spelling must MEAN its
           own definition (factor to base units, dimension vector, prefixed -> plain conversion)
+  extra   one scope (every style / exit / context) of sets with special structure - two units sharing one NEW
+          conversion class followed by a further unit; a unit whose prefixes / dimensions fields are the very list
+          objects of built-in table rows - and bodies that mutate the definition dict they passed in (delete the first
+          key, insert a key in front, replace a value)
   dipredef successive DIP texts defining [len] differently: expression / power / modification / logical results must
           follow the definition of their own text
 """
@@ -141,6 +145,9 @@ class _IntUnits:
     def __init__(self, pairs, k, exc):
         self.pairs, self.k, self.exc = pairs, k, exc
 
+    def keys(self):
+        return [sym for sym, _ in self.pairs]
+
     def items(self):
         for i, (sym, unit) in enumerate(self.pairs, 1):
             if i == self.k:
@@ -198,6 +205,13 @@ def _build(name):
         # has ONE meaning in the whole alphabet, so that a (defective) look-up cache that survives a scope cannot make
         # the verdict of a case depend on the cases executed before it in the same process
         return {"[mas]": dict(magnitude=3.0, dimensions=[0, 1, 0, 0, 0, 0, 0, 0])}
+    # ---- sets of the extra part
+    if name == "SH":     # two units share one NEW conversion class and a further unit follows
+        return {"Xj": _d(definition=c["CT1"]), "Xv": _d(definition=c["CT1"]), "Xw": _d()}
+    if name == "PR":     # definition fields that are the very objects of built-in table rows
+        from scinumtools.units.settings import UNIT_STANDARD
+        return {"Xk": dict(magnitude=3, dimensions=UNIT_STANDARD["m"].dimensions,
+                           prefixes=UNIT_STANDARD["pc"].prefixes)}
     # ---- the same symbols with OTHER definitions (used by the redef part only)
     if name == "A2":
         return {"Xa": _d(magnitude=7, dimensions=list(_DIM2))}
@@ -245,9 +259,11 @@ SYMS = dict(A=["Xa"], AB=["Xa", "Xb"], BC=["Xb", "Xc"], CA=["Xc", "Xa"], Q=["Xq"
             M2=["Xd", "Xe"], MT=["Xe"], ZZ=["Xd"], TD=["Xi", "m"], QD=["Xq", "s"])
 for _n in BAD_INT:
     SYMS[_n] = _ISYM[:int(_n[1]) - (1 if _n[0] == "I" else 0)]
-SYMS.update(A2=SYMS["A"], BC2=SYMS["BC"], Q2=SYMS["Q"], T2=SYMS["T"])
+SYMS.update(A2=SYMS["A"], BC2=SYMS["BC"], Q2=SYMS["Q"], T2=SYMS["T"], SH=["Xj", "Xv", "Xw"], PR=["Xk"])
+XG = ("SH", "PR")
 # spellings that must work inside the scope (symbols + admissible prefixed forms)
-PROBE = dict(SYMS, BC=["Xb", "kXb", "MXb", "Xc", "mXc", "GXc"], BC2=["Xb", "kXb", "MXb", "Xc", "mXc", "GXc"])
+PROBE = dict(SYMS, BC=["Xb", "kXb", "MXb", "Xc", "mXc", "GXc"], BC2=["Xb", "kXb", "MXb", "Xc", "mXc", "GXc"],
+             PR=["Xk", "kXk", "TXk"])
 # redef part: families of sets that define the same symbols differently, and what each spelling must MEAN inside the
 # scope: spelling -> (factor to base units, dimension vector); prefixed spellings carry the prefix factor
 REDEF = dict(A=("A", "A2"), BC=("BC", "BC2"), Q=("Q", "Q2"), T=("T", "T2"))
@@ -274,7 +290,7 @@ for _n in BAD_INT:
                                              _n[1], EXC[_n[2]].__name__)
     BEFORE[_n] = int(_n[1]) - (1 if _n[0] == "I" else 0)
 CUSTOM = ["Xa", "Xb", "Xc", "Xd", "Xe", "Xq", "Xr", "Xi", "Xj", "Xv", "Xw", "[mas]", "[len]", "[vel]", "[bad]", "kXb", "MXb",
-          "mXc", "GXc", "a"]
+          "mXc", "GXc", "a", "Xk", "kXk", "TXk", "Xz"]
 
 DIPTEXT = dict(
     DOK="$unit len = 2 cm\nw float = 3 [len]\n  !condition (\"{?} > 1 [len]\")\n",
@@ -317,7 +333,7 @@ def _step(stack, op):
         return stack[:len(stack) - op[1]]
     if k in ("fail", "dip"):
         return stack[:len(stack) - op[2]] if _predict_fail(stack, op) else stack
-    if k == "drop":
+    if k in ("drop", "mutate"):
         return stack
     raise HarnessError("bad op %r" % (op,))
 
@@ -370,6 +386,8 @@ def _nfaults(hist):
 
 def _owner(hist, tier):
     """which part counts this history as a distinct case (parts overlap; each history is counted once)"""
+    if any(op[0] == "mutate" or (op[0] == "open" and op[1] in XG) for op in hist):
+        return "extra"
     if any(op[0] == "open" and op[1] in REDEF_ALT for op in hist):
         return "redef"
     nf = _nfaults(hist)
@@ -539,6 +557,10 @@ def init_worker():
     for m_ in ("m", "g", "s"):
         if m_ not in UNIT_STANDARD:
             raise HarnessError("alphabet: %s missing" % m_)
+    pcp = UNIT_STANDARD["pc"].prefixes
+    if not isinstance(pcp, list) or pcp == sorted(pcp, key=list(UNIT_PREFIXES.keys()).index) or "k" not in pcp \
+            or "T" not in pcp:
+        raise HarnessError("alphabet: the prefixes list of 'pc' no longer fits set PR")
 
 
 def _restore():
@@ -667,7 +689,8 @@ class Run:
             self.events.append(label)
             return
         fp = _snap()
-        desc = tuple((s, st, tuple(getattr(e, "new_units", ())), tuple(t.__name__ for t in getattr(e, "new_types", ())))
+        # the bookkeeping of the open environments, whatever form the implementation gives it
+        desc = tuple((s, st, repr(getattr(e, "new_units", None)), repr(getattr(e, "new_types", None)))
                      for s, st, e in self.stack)
         kept = tuple(sorted(d_ for d_, e in self.vars.items() if all(e is not x[2] for x in self.stack)))
         self.states.append(hash((_CANON[fp][1], desc, kept)))    # kept: variables holding closed environment objects
@@ -774,6 +797,8 @@ class Run:
                 self.scope(op, idx, depth)
             elif k == "drop":
                 self.drop(idx, depth)
+            elif k == "mutate":
+                self.mutate(op[1], idx, depth)
             elif k == "dip":
                 self.dip(op, idx, depth)
             else:
@@ -821,6 +846,7 @@ class Run:
         env = None              # with-style: the temporary is gone; explicit style: self.vars still holds it
         lib_exc = exc is not None and not isinstance(exc, (_End, _Unwind, _UnwindB))
         tags = self.ctx_tags(depth) + ["set:" + sname]
+        tags += ["body-mutates-passed-dict:" + op_[1] for op_ in self.h[idx:self.i] if op_[0] == "mutate"]
         if sname in FAULT:
             tags += ["fault:" + FAULT[sname]]
             tags += ["registered-before-failure>0" if BEFORE[sname] else "registered-before-failure=0"]
@@ -866,6 +892,33 @@ class Run:
             self.done(idx, "construction-interrupted" if _injected(exc) else "construction-failed")
             return
         self.done(idx, "exit-raised")
+
+    def mutate(self, how, idx, depth):
+        """the body changes the definition dict it passed to the innermost environment (its own object)"""
+        if not self.stack:
+            raise HarnessError("mutate at depth 0: %r" % (self.h,))
+        units = self.dicts[self.stack[-1][0]]
+        entry = _snap()
+        first = next(iter(units))
+        if how == "del-first":
+            del units[first]
+        elif how == "add-first":
+            items = list(units.items())
+            units.clear()
+            units["Xz"] = _d()
+            units.update(items)
+        elif how == "replace-first":
+            units[first] = _d(magnitude=9)
+        else:
+            raise HarnessError("bad mutation " + how)
+        tags = self.ctx_tags(depth) + ["body-mutates-passed-dict:" + how, "set:" + self.stack[-1][0]]
+        d = _diff(entry)
+        if d:
+            self.bad("body-mutation", "changing the caller's own definition dict leaves the tables untouched", d, tags,
+                     _behaviour(d))
+        if self.fail is None:
+            self.check_open_usable(tags)
+        self.done(idx, "mutated")
 
     def drop(self, idx, depth):
         """`del` of every environment variable + gc.collect(): closed environment objects are released here"""
@@ -942,7 +995,7 @@ def _exec(hist, sh, tier=None, part=None, seen=None):
     _between_cases(sh)
     # graph / hist / core enumerate prefix-closed sets of histories: the probes of earlier operations were evaluated
     # when the shorter history was executed
-    r = Run(hist, check_from=0 if part in ("cycles", "redef") else len(hist) - 1, values=part == "redef")
+    r = Run(hist, check_from=0 if part in ("cycles", "redef", "extra") else len(hist) - 1, values=part == "redef")
     bad = r.go()
     sh.evaluations += 1
     sh.traces += 1
@@ -963,7 +1016,7 @@ def _exec(hist, sh, tier=None, part=None, seen=None):
         key = repr(bad["case"])
         own = _owner([tuple(op) for op in bad["case"]["history"]], tier) if tier is not None else part
         full = len(bad["case"]["history"]) == len(hist)
-        if ((own == part and full) or own in ("cycles", "redef")) and (seen is None or key not in seen):
+        if ((own == part and full) or own in ("cycles", "redef", "extra")) and (seen is None or key not in seen):
             if seen is not None:
                 seen.add(key)
             _report(sh, bad)
@@ -1369,6 +1422,21 @@ def _dipredef_case(seq, body, ctx):
     return what, bad
 
 
+EXTRA_SETS = ["A", "AB", "BC", "TU", "Q", "SH", "PR"]
+
+
+def _extra_histories(sname):
+    """one scope of `sname` (every style, exit, context), optionally with a body that mutates the dict it passed in;
+    and the set opened twice in a row with fresh dicts"""
+    out = []
+    for ctx in ((), (("open", "LM", "with"),)):
+        for style in ("with", "explicit"):
+            for body in ((), (("mutate", "del-first"),), (("mutate", "add-first"),), (("mutate", "replace-first"),)):
+                for ex in ((), (("end",),), (("raise", 1),), (("interrupt", 1),)):
+                    out.append(ctx + (("open", sname, style),) + body + ex)
+    return out
+
+
 def _dip_explore(ctx, first, maxlen, sh):
     """BFS over line programs starting with `first`: a program is extended only if it parsed (a failed program is a
     leaf); shorter programs first, so the first record of a failure class is a shortest one"""
@@ -1437,6 +1505,7 @@ def plan(tier, seed):
     # dip route: few, comparatively long shards
     dips = [("dip", (ctx, ln), tier) for ctx in DIP_CTX for ln in LNAMES] + [("dipint", None, tier)]
     dips += [("dipredef", seq, tier) for seq in DIPRE_SEQ]
+    dips += [("extra", sname, tier) for sname in EXTRA_SETS]
     dips += [("redef", (fam, seq), tier) for fam in REDEF for seq in itertools.product((0, 1), repeat=3)
              if len(set(seq)) == 2]
     t3 = _overlap_tuples(3)
@@ -1516,6 +1585,10 @@ def run_shard(desc):
     elif kind == "dip":
         ctx, ln = arg
         _dip_explore(ctx, [ln], LDIP[tier], sh)
+    elif kind == "extra":
+        for h in _extra_histories(arg):
+            _exec(h, sh, tier, "extra", seen)
+            sh.count("extra")
     elif kind == "dipredef":
         for body in DIPRE_BODY:
             for ctx in ("top", "inA"):
@@ -1639,7 +1712,7 @@ def finish(total, tier, seed):
     h = total.hist
     need = ["last:opened", "last:exit-normal", "last:unwound", "last:construction-failed", "last:dip-ok",
             "last:dip-err", "dip-top-ok", "dip-top-err", "dip-inLM-err", "dip-split-ok",
-            "last:construction-interrupted", "last:unwound-by-interrupt", "redef", "last:dropped-1"]
+            "last:construction-interrupted", "last:unwound-by-interrupt", "redef", "last:dropped-1", "extra"]
     need += ["dipint-%s-interrupted" % site for site in DIPINT]
     missing = [k for k in need if not h.get(k)]
     # parts whose cases may all violate on a defective tree: they only have to have been executed
@@ -1679,7 +1752,9 @@ MANIFEST = dict(
          "and closed in every order, judged once all are closed; (redef/dipredef) the same symbol registered in "
          "successive scopes / DIP texts with different definitions, every plain and prefixed spelling checked for the "
          "factor and dimension of its own definition; object lifetimes (re-binding, del + gc.collect at every later "
-         "point) are part of the programs. On every transition: tables equal "
+         "point) are part of the programs; (extra) units sharing a new conversion class followed by further units, "
+         "definition fields that are list objects of built-in rows (order-sensitive row comparison), bodies that "
+         "mutate the dict they passed in. On every transition: tables equal "
          "the scope-entry snapshot at every exit / failed construction / parse, pristine at depth 0, custom units "
          "usable inside and unknown outside.",
     note="Trusted: mc/isolation.py canonical table form (plus identity of UNIT_TYPES classes), the static stack model "
